@@ -1,4 +1,6 @@
 """Effect-summary rules for the local (unsync) metrics — shared by C01.R6, C12 and C18."""
+import re
+
 from pvrules.mir import is_call, peel, show, strip_generics, TRANSPARENT
 from pvrules.rules import PURE, SELF_FIELD, const_int, count_range, effect_calls
 
@@ -31,9 +33,12 @@ def rule_local_counter(ctx, f, rid):
     ctx.rule(rid, "local counter effect summaries: flush = (val == 0 -> nothing) | (exactly one counter.inc_by(val) then val := 0 on every path); "
                   "inc/inc_by only add to val; reset only zeroes val; clone/new start from zero; nothing else touches the shared counter")
     # ---- flush (L1)
+    from pvrules import inline
+    own = lambda pth: bool(re.match(r"^prometheus::counter::GenericLocalCounter::(get|reset|inc_by)$", strip_generics(pth)))   # noqa: E731
     b = ctx.anchor(rid, "GenericLocalCounter::flush", f.body(LC + "flush"))
     if b:
         ctx.saw(b)
+        b = inline.expand_body(f, b, own)      # `self.get()` / `self.reset()` are the same reads and writes of self.val
         incs = [c for c in b.calls() if c.matches(["GenericCounter::inc_by", "Value::inc_by", "Atomic::inc_by"])]
         other = [c for c in effect_calls(b, PURE_CELL) if c not in incs]
         ctx.ob(rid, "flush|effects", len(incs) == 1 and not other,
@@ -79,6 +84,8 @@ def rule_local_counter(ctx, f, rid):
         if not b:
             continue
         ctx.saw(b)
+        if m == "inc":
+            b = inline.expand_body(f, b, own)  # inc may be written as inc_by(1)
         eff = effect_calls(b, PURE_CELL)
         adds = [c for c in eff if c.matches("AddAssign::add_assign")]
         ok = len(adds) == 1 and len(eff) == 1 and cell(adds[0].args[0]) == VAL and argp(adds[0].args[1]) and count_range(b, [adds[0].bb]) == (1, 1)
@@ -136,5 +143,5 @@ def rule_local_counter(ctx, f, rid):
                 w = True
         if w:
             writers.add(strip_generics(bd.path).split("::")[-1])
-    ctx.ob(rid, "val|writers", writers <= {"inc_by", "inc", "reset", "flush"} and writers >= {"inc_by", "inc", "reset", "flush"},
-           "self.val of a local counter is written exactly by inc_by, inc, reset and flush (found %s)" % sorted(writers))
+    ctx.ob(rid, "val|writers", writers <= {"inc_by", "inc", "reset", "flush"} and writers >= {"inc_by"},
+           "self.val of a local counter is written only by inc_by, inc, reset and flush (found %s)" % sorted(writers))
